@@ -13,7 +13,18 @@ try:
     assert sh("git -C /repo worktree add -q %s HEAD" % wt).returncode == 0
     env = "cd %s && PYTHONPATH=%s/src timeout 120 /venv/bin/python %s" % (wt, wt, demo)
     r0 = sh(env); meta["demo_exit_clean"] = r0.returncode
-    ra = sh("git -C %s apply %s" % (wt, patch)); meta["patch_applies"] = ra.returncode == 0
+    ra = sh("git -C %s apply %s" % (wt, patch))
+    if ra.returncode != 0:
+        # /repo moved on since the sub-agent's worktree was made: re-anchor with fuzz and keep the re-anchored diff
+        ra = sh("cd %s && patch -p1 --fuzz=3 --no-backup-if-mismatch < %s && find . -name '*.orig' -delete -o -name '*.rej' -delete" % (wt, patch))
+        if ra.returncode == 0:
+            newp = os.path.join(sdir, "patch.reanchored.diff")
+            open(newp, "w").write(sh("git -C %s diff" % wt).stdout)
+            patch = newp
+            meta["reanchored"] = True
+        else:
+            sh("git -C %s checkout -- ." % wt)
+    meta["patch_applies"] = ra.returncode == 0
     if ra.returncode != 0:
         meta["apply_error"] = ra.stdout[-400:]
     else:
